@@ -253,7 +253,9 @@ def run_cbmc(job, target, wd, res, extra=(), extra_props=None):
     open(os.path.join(wd, 'cbmc.json'), 'w').write(out)
     open(os.path.join(wd, 'cbmc.cmd'), 'w').write(' '.join(cmd) + '\n')
     if rc == -9:
-        res.status = 'undecided'; res.detail = 'solver timeout after %ds' % job.timeout; return
+        res.status = 'undecided'
+        res.detail = ('solver timeout after %ds' % job.timeout) if wall >= job.timeout - 5 else 'solver killed by SIGKILL after %ds (kernel out-of-memory killer or external kill)' % wall
+        return
     parsed = parse_cbmc_json(out)
     if parsed is None or parsed[0] is None:
         msgs = parsed[1] if parsed else []
